@@ -23,14 +23,19 @@ PROPS = ['Props/C17.v', 'Props/E2E.v']   # E2E: the end-to-end composition
 def make_case(rng, base, idx, multi):
     d = os.path.join(base, f"case{idx}")
     nfiles = rng.choice([2, 3, 5, 9]) if multi else 1
-    use_global = rng.random() < 0.5
+    use_global = rng.random() < 0.5 and idx != 2
     ncons = 1 if use_global else 0
     cons = RC.gen_constraints(rng, ncons)
     defs = RC.gen_defs(rng, 0, allow_cons=False)
     files, contents = {}, {}
     for i in range(nfiles):
         r = rng.random()
-        if r < 0.15:
+        if idx == 2 and i == 0:
+            # a line longer than 1 MiB is still a line that was read
+            data = (b'2022-01-12 00:00:00 alpha 1\n' + b'2022-01-12 00:00:01 '
+                    + b'Z' * ((1 << 20) + 17) + b'\n'
+                    + b'2022-01-12 00:00:02 alpha 2\nend 3\n')
+        elif r < 0.15:
             data = b''
         else:
             data = G.gen_log(rng, rng.choice([1, 3, 12, 40, 120]),
@@ -43,6 +48,17 @@ def make_case(rng, base, idx, multi):
         files[name] = (data, gz)
         contents[name] = data
     skrun.materialise(d, files)
+    broken = None
+    if multi and idx % 5 == 1:
+        # one file is a gzip stream cut in the middle: the task fails, run()
+        # must raise (it must not return statistics of a half-done run)
+        import gzip as _gz
+        victim = sorted(files)[0]
+        blob = _gz.compress(b''.join(b'2022-01-12 00:00:%02d alpha %d\n'
+                                     % (i % 60, i) for i in range(4000)))
+        with open(os.path.join(d, victim), 'wb') as f:
+            f.write(blob[:len(blob) // 2])
+        broken = victim
     adds = []
     restricted = set()
     # directory / glob registrations first (they create the catalog entries
@@ -80,7 +96,8 @@ def make_case(rng, base, idx, multi):
         runs = [run, dict(run, new_searcher=False, extra_adds=extra)]
         if rng.random() < 0.5:
             runs.append(dict(run, new_searcher=False))
-    recipe = {'dir': d, 'constraints': cons, 'defs': defs, 'runs': runs}
+    recipe = {'dir': d, 'constraints': cons, 'defs': defs, 'runs': runs,
+              'expect_failure': broken is not None}
     if rng.random() < 0.5:
         # small thresholds: mid-file flushes and several batches per flush
         recipe['patch'] = {'NUM_BUFFERED_RESULTS': rng.choice([1, 2, 5, 7]),
@@ -151,12 +168,27 @@ def run(chk):
                                else adds_so_far) + list(rk.get('extra_adds')
                                                         or [])
                 chk.coverage['evaluations'] += 1
+                if recipe.get('expect_failure'):
+                    chk.dist('failing_task_case')
+                    if o['exc'] != 'FileSearchException':
+                        chk.violation(
+                            "run-with-failed-task-did-not-raise "
+                            f"({o['exc']})",
+                            {'recipe': recipe_brief(recipe), 'obs': {
+                                'exc': o['exc'], 'stats': o['stats'],
+                                'len': o.get('len')}})
+                    continue
                 if o['exc']:
                     chk.violation(f"unexpected-exception {o['exc']}",
                                   {'recipe': recipe_brief(recipe), 'obs': o})
                     continue
                 files = o['files']
                 st = o['stats']
+                if len(st['searches_by_job']) > 4 * len(files) + 64:
+                    # keep witnesses and the generated Coq cases small when
+                    # the observed list is absurdly long (it is wrong anyway)
+                    st = dict(st, searches_by_job=st['searches_by_job'][:64]
+                              + [-len(st['searches_by_job'])])
                 regs = [sum(1 for a in adds_so_far
                             if reaches(a[1], f)) for f in files]
                 nres = [len(o['results'].get(f, [])) for f in files]
